@@ -97,8 +97,8 @@ theorem nameRulesEval_fst (O : Oracle) (v : Variant) (e : Elem) (rs : List Rule)
     · simp [h, ih]
 
 /-- repaired variant: one atom's name rule on a tag = the documented meaning of the atom as a name criterion -/
-theorem atom_rules_nameEval (O : Oracle) (e : Elem) (a : Atom) :
-    a.rules.any (fun r => (nameRuleEval O .repaired e r).1)
+theorem atom_rules_nameEval (O : Oracle) (v : Variant) (hr : v.retryFn = false) (e : Elem) (a : Atom) :
+    a.rules.any (fun r => (nameRuleEval O v e r).1)
       = (a.sat O (some e.id) (some e.name) ||
           (!a.isFn && (match prefixedName e with
                        | some p => a.sat O none (some p)
@@ -109,7 +109,7 @@ theorem atom_rules_nameEval (O : Oracle) (e : Elem) (a : Atom) :
     simp only [Atom.rules, List.any_cons, List.any_nil, Bool.or_false, nameRuleEval, Atom.sat, Atom.isFn]
     by_cases h : O.fnTag i e.id = true
     · simp [h]
-    · cases hp : prefixedName e <;> simp [h, Variant.repaired]
+    · cases hp : prefixedName e <;> simp [h, hr]
   | str s =>
     simp only [Atom.rules, List.any_cons, List.any_nil, Bool.or_false, nameRuleEval, Atom.sat, Atom.isFn,
       Rule.baseMatch, Rule.matchesString]
@@ -140,13 +140,13 @@ theorem atom_rules_nameEval (O : Oracle) (e : Elem) (a : Atom) :
     · simp [h]
     · cases hp : prefixedName e <;> simp [h]
 
-theorem nameRules_satName (O : Oracle) (e : Elem) (c : Crit) :
-    (nameRulesEval O .repaired e (makeRules c)).1 = c.satName O e := by
+theorem nameRules_satName (O : Oracle) (v : Variant) (hr : v.retryFn = false) (e : Elem) (c : Crit) :
+    (nameRulesEval O v e (makeRules c)).1 = c.satName O e := by
   rw [nameRulesEval_fst, any_makeRules]
   simp only [Crit.satName]
   congr 1
   funext a
-  exact atom_rules_nameEval O e a
+  exact atom_rules_nameEval O v hr e a
 
 /-! ### attribute rules -/
 
@@ -167,7 +167,7 @@ theorem helperMatch_makeRules (O : Oracle) (c : Crit) (vals : List (Option PStr)
   exact makeRules_matchesString O c x
 
 theorem attributeMatch_makeRules (O : Oracle) (c : Crit) (v : Option AttrVal) :
-    attributeMatch O true v (makeRules c) = c.satAttr O v := by
+    attributeMatch O v (makeRules c) = c.satAttr O v := by
   simp only [attributeMatch, Crit.satAttr, helperMatch_makeRules]
   simp
 
@@ -175,10 +175,10 @@ theorem helperMatch_flatMap {α : Type} (O : Oracle) (l : List α) (f : α → L
     helperMatch O (l.flatMap f) vals = l.any (fun x => helperMatch O (f x) vals) := by
   simp [helperMatch, List.any_flatMap]
 
-theorem attributeMatch_flatMap {α : Type} (O : Oracle) (je : Bool) (l : List α) (f : α → List Rule) (v : Option AttrVal) :
-    attributeMatch O je v (l.flatMap f) = l.any (fun x => attributeMatch O je v (f x)) := by
+theorem attributeMatch_flatMap {α : Type} (O : Oracle) (l : List α) (f : α → List Rule) (v : Option AttrVal) :
+    attributeMatch O v (l.flatMap f) = l.any (fun x => attributeMatch O v (f x)) := by
   simp only [attributeMatch, helperMatch_flatMap]
-  generalize (if je = true then decide ((attrValues v).length ≠ 1) else decide ((attrValues v).length > 1)) = b
+  generalize decide ((attrValues v).length ≠ 1) = b
   induction l with
   | nil => simp
   | cons x rest ih =>
@@ -220,10 +220,10 @@ theorem all_flat (pairs : List (PStr × Crit)) (F : PStr → Bool)
 
 /-- the attribute part of `matches_tag` = the documented meaning, when every attribute criterion yields a rule -/
 theorem attrs_ok (O : Oracle) (q : Query) (e : Elem) (hy : ∀ p ∈ q.attrPairs, makeRules p.2 ≠ []) :
-    (mkStrainer q).attrFlat.all (fun p => attributeMatch O true (getAttr e p.1) ((mkStrainer q).rulesFor p.1))
+    (mkStrainer q).attrFlat.all (fun p => attributeMatch O (getAttr e p.1) ((mkStrainer q).rulesFor p.1))
       = q.attrPairs.all (fun p => (q.attrPairs.filter (·.1 == p.1)).any (fun p' => p'.2.satAttr O (getAttr e p.1))) := by
   have h1 : (mkStrainer q).attrFlat = q.attrPairs.flatMap (fun p => (makeRules p.2).map (fun r => (p.1, r))) := rfl
-  rw [h1, all_flat q.attrPairs (fun a => attributeMatch O true (getAttr e a) ((mkStrainer q).rulesFor a)) hy]
+  rw [h1, all_flat q.attrPairs (fun a => attributeMatch O (getAttr e a) ((mkStrainer q).rulesFor a)) hy]
   congr 1
   funext p
   rw [rulesFor_mk, attributeMatch_flatMap]
@@ -298,7 +298,7 @@ theorem rules_isEmpty (c : Crit) (h : c.isNone = true ∨ c.Yields) : (makeRules
 
 theorem shortcut_sound (O : Oracle) (q : Query) (e : Elem)
     (h : shortcutReject (mkStrainer q) e = true) : q.name.satName O e = false := by
-  rw [← nameRules_satName]
+  rw [← nameRules_satName O .repaired rfl]
   simp only [shortcutReject, Bool.and_eq_true, Bool.not_eq_true'] at h
   obtain ⟨hp, hm⟩ := h
   have hn : (mkStrainer q).nameRules = makeRules q.name := rfl
@@ -320,18 +320,31 @@ theorem shortcut_sound (O : Oracle) (q : Query) (e : Elem)
     simp [nameRulesEval, nameRuleEval, Rule.baseMatch, hpn, this]
   · exact absurd hm (by simp)
 
-theorem matchElem_sat_live (O : Oracle) (q : Query) (e : Elem) (hd : (mkStrainer q).dead = false)
-    (hnc : q.noCriteria = false) :
-    keeps (matchElem O .repaired (mkStrainer q)) e = sat O q e := by
-  have hq := allYield_of_not_dead q hd
+theorem not_dead_of_allYield (q : Query) (hq : q.AllYield) : (mkStrainer q).dead = false := by
+  have em : ∀ c : Crit, c.isNone = true ∨ c.Yields → (!c.isNone && (makeRules c).isEmpty) = false := by
+    intro c h
+    rw [rules_isEmpty c h]; cases c.isNone <;> rfl
+  simp only [mkStrainer, em _ hq.name, em _ hq.string, Bool.false_or, Bool.or_false]
+  apply List.any_eq_false.mpr
+  intro p hp
+  have := hq.attrs p hp
+  cases hm : makeRules p.2 with
+  | nil => exact absurd hm this
+  | cons r rs => simp
+
+/-- the `SoupStrainer` match = the documented meaning when every given criterion yields a rule — for every variant
+    of the code in which a name function is not retried with the prefixed string -/
+theorem matchElem_sat_yield (O : Oracle) (v : Variant) (hr : v.retryFn = false) (q : Query) (e : Elem)
+    (hq : q.AllYield) (hnc : q.noCriteria = false) :
+    keeps (matchElem O v (mkStrainer q)) e = sat O q e := by
+  have hd := not_dead_of_allYield q hq
   have hun : q.unsatisfiable = false := by rw [← dead_eq_unsat]; exact hd
-  have hje : Variant.repaired.joinEmpty = true := rfl
   have hN : (mkStrainer q).nameRules.isEmpty = q.name.isNone := rules_isEmpty q.name hq.name
   have hS : (mkStrainer q).stringRules.isEmpty = q.string.isNone := rules_isEmpty q.string hq.string
   have hA := attrFlat_isEmpty q hq.attrs
   have hAt := attrs_ok O q e hq.attrs
-  have hNm : (nameRulesEval O .repaired e (mkStrainer q).nameRules).1 = q.name.satName O e :=
-    nameRules_satName O e q.name
+  have hNm : (nameRulesEval O v e (mkStrainer q).nameRules).1 = q.name.satName O e :=
+    nameRules_satName O v hr e q.name
   have hSr : ∀ x, (mkStrainer q).stringRules.any (fun r => r.matchesString O x) = q.string.sat O x :=
     fun x => makeRules_matchesString O q.string x
   unfold sat keeps matchElem
@@ -339,7 +352,6 @@ theorem matchElem_sat_live (O : Oracle) (q : Query) (e : Elem) (hd : (mkStrainer
   by_cases ht : e.isTag = true
   · simp only [ht, if_true, Elem.truthy, Bool.true_or, Bool.true_and]
     unfold matchesTag Query.hasTagCriteria
-    simp only [hd, Bool.and_false, Bool.false_eq_true, if_false, hje]
     rw [hN, hA]
     by_cases hn : q.name.isNone = true
     · by_cases ha : q.attrPairs.isEmpty = true
@@ -372,18 +384,21 @@ theorem matchElem_sat_live (O : Oracle) (q : Query) (e : Elem) (hd : (mkStrainer
       · simp [hn, ha]
     · simp [hn]
 
-/-- **the `SoupStrainer` match of the repaired code = the documented meaning**, for every query with at least one
-    criterion, every element and every oracle -/
-theorem matchElem_sat (O : Oracle) (q : Query) (e : Elem) (hnc : q.noCriteria = false) :
-    keeps (matchElem O .repaired (mkStrainer q)) e = sat O q e := by
-  cases hd : (mkStrainer q).dead with
-  | false => exact matchElem_sat_live O q e hd hnc
+/-- **the `SoupStrainer` match = the documented meaning**, for every query with at least one criterion, every
+    element and every oracle — provided the code consults `matches_nothing` (proposed patch d) or every given
+    criterion yields a rule -/
+theorem matchElem_sat (O : Oracle) (v : Variant) (hr : v.retryFn = false) (q : Query) (e : Elem)
+    (hd : v.deadCheck = true ∨ q.AllYield) (hnc : q.noCriteria = false) :
+    keeps (matchElem O v (mkStrainer q)) e = sat O q e := by
+  cases hdd : (mkStrainer q).dead with
+  | false => exact matchElem_sat_yield O v hr q e (allYield_of_not_dead q hdd) hnc
   | true =>
-    have hun : q.unsatisfiable = true := by rw [← dead_eq_unsat]; exact hd
-    have hdc : Variant.repaired.deadCheck = true := rfl
-    unfold sat keeps matchElem matchesTag
-    simp only [hnc, hun, hd, hdc, Bool.and_self, Bool.false_eq_true, if_false, if_true]
-    by_cases ht : e.isTag = true <;> simp [ht]
+    rcases hd with hdc | hq
+    · have hun : q.unsatisfiable = true := by rw [← dead_eq_unsat]; exact hdd
+      unfold sat keeps matchElem matchesTag
+      simp only [hnc, hun, hdd, hdc, Bool.and_self, Bool.false_eq_true, if_false, if_true]
+      by_cases ht : e.isTag = true <;> simp [ht]
+    · rw [not_dead_of_allYield q hq] at hdd; cases hdd
 
 /-! ### the fast paths of `_find_all` -/
 
@@ -592,13 +607,43 @@ theorem basic_shape (q : Query) (hb : q.basic = true) : q = nameOnly q.name := b
   subst h1 h3 ha
   rfl
 
-theorem general_eq_spec (O : Oracle) (q : Query) (ax : List Elem) (hnc : q.noCriteria = false) :
-    (generalPath O .repaired q none ax).1 = findAllSpec O q ax := by
+/-- `attrs` is a dict, or a non-dict value that is truthy (else: known finding `C10-falsy-attrs-ignored`) -/
+def Query.AttrsArgOK (q : Query) : Prop :=
+  match q.attrs with
+  | .dict _ => True
+  | .sugar c => c.truthy = true
+
+instance (q : Query) : Decidable q.AttrsArgOK := by
+  unfold Query.AttrsArgOK; split <;> infer_instance
+
+/-- the variants of the code the refinement theorems are about: the two repairs committed to /repo are in force -/
+structure Variant.Sound (v : Variant) : Prop where
+  retry : v.retryFn = false
+  noCrit : v.noCritBranch = true
+
+theorem Variant.repaired_sound : Variant.repaired.Sound := ⟨rfl, rfl⟩
+theorem Variant.proposed_sound : Variant.proposed.Sound := ⟨rfl, rfl⟩
+
+theorem noAttrs_eq (v : Variant) (q : Query) (ha : v.attrsDict = true ∨ q.AttrsArgOK) :
+    (if v.attrsDict then q.attrs.isEmptyDict else !q.attrs.truthy) = q.attrs.isEmptyDict := by
+  rcases ha with ha | ha
+  · simp [ha]
+  · cases hv : v.attrsDict
+    · simp only [Bool.false_eq_true, if_false]
+      unfold Query.AttrsArgOK at ha
+      cases hq : q.attrs with
+      | dict d => simp [AttrsArg.truthy, AttrsArg.isEmptyDict]
+      | sugar c => rw [hq] at ha; simp [AttrsArg.truthy, AttrsArg.isEmptyDict, ha]
+    · simp
+
+theorem general_eq_spec (O : Oracle) (v : Variant) (hr : v.retryFn = false) (q : Query) (ax : List Elem)
+    (hd : v.deadCheck = true ∨ q.AllYield) (hnc : q.noCriteria = false) :
+    (generalPath O v q none ax).1 = findAllSpec O q ax := by
   unfold generalPath findAllSpec
   rw [filterLoop_none_fst]
   apply List.filter_congr
   intro e _
-  exact matchElem_sat O q e hnc
+  exact matchElem_sat O v hr q e hd hnc
 
 theorem noCriteria_of_basic (q : Query) (hb : q.basic = true) : q.noCriteria = q.name.isNone := by
   have := basic_shape q hb
@@ -620,9 +665,11 @@ theorem noCriteria_false_of_not_basic (q : Query) (hb : q.basic = false) : q.noC
         | cons p d => simp
         | nil => simp [Query.basic, hs, AttrsArg.isEmptyDict] at hb
 
-/-- how `findAllImpl` of the repaired code starts: its `basic` test is `Query.basic` -/
-theorem findAllImpl_repaired (O : Oracle) (q : Query) (limit : Option Nat) (ax : List Elem) :
-    findAllImpl O .repaired q limit ax =
+/-- how `findAllImpl` starts when the no-criteria branch exists and `attrs` is a dict / truthy (or the shortcuts
+    test for an empty dict): its `basic` test is `Query.basic` -/
+theorem findAllImpl_sound (O : Oracle) (v : Variant) (hn : v.noCritBranch = true) (q : Query)
+    (ha : v.attrsDict = true ∨ q.AttrsArgOK) (limit : Option Nat) (ax : List Elem) :
+    findAllImpl O v q limit ax =
       if q.basic && q.name.isNone then
         (match limit with
          | some k => if k = 0 then ax.filter (·.isTag) else (ax.filter (·.isTag)).take k
@@ -632,30 +679,32 @@ theorem findAllImpl_repaired (O : Oracle) (q : Query) (limit : Option Nat) (ax :
         | .atom (.bool true) => (ax.filter (·.isTag), [])
         | .atom .none => (ax.filter (·.isTag), [])
         | .atom (.str n) => (ax.filter (fastNameTest n), [])
-        | _ => generalPath O .repaired q limit ax
-      else generalPath O .repaired q limit ax := by
-  simp only [findAllImpl, Variant.repaired, Query.basic, if_true, Bool.true_and]
+        | _ => generalPath O v q limit ax
+      else generalPath O v q limit ax := by
+  simp only [findAllImpl, hn, noAttrs_eq v q ha, Query.basic, Bool.true_and]
   rfl
 
-theorem fn_calls_elem (O : Oracle) (q : Query) (i : Nat) (hn : q.name = .atom (.fn i))
-    (hd : (mkStrainer q).dead = false) (e : Elem) :
-    (matchElem O .repaired (mkStrainer q) e).2 = if e.isTag then [.tag i e.id] else [] := by
-  have hr : (mkStrainer q).nameRules = [.function i] := by simp [mkStrainer, hn, makeRules, Atom.rules]
+theorem fn_calls_elem (O : Oracle) (v : Variant) (hr : v.retryFn = false) (q : Query) (i : Nat)
+    (hn : q.name = .atom (.fn i)) (hd : v.deadCheck = false ∨ (mkStrainer q).dead = false) (e : Elem) :
+    (matchElem O v (mkStrainer q) e).2 = if e.isTag then [.tag i e.id] else [] := by
+  have hr' : (mkStrainer q).nameRules = [.function i] := by simp [mkStrainer, hn, makeRules, Atom.rules]
+  have hdd : (v.deadCheck && (mkStrainer q).dead) = false := by
+    rcases hd with h | h <;> simp [h]
   unfold matchElem
   by_cases ht : e.isTag = true
   · simp only [ht, if_true]
     unfold matchesTag
-    simp only [hd, hr, List.isEmpty_cons, Bool.false_and, Bool.false_eq_true, if_false, shortcutReject, Bool.and_false,
-      nameRulesEval, nameRuleEval, Variant.repaired]
+    simp only [hdd, hr', List.isEmpty_cons, Bool.false_and, Bool.false_eq_true, if_false, shortcutReject, Bool.and_false,
+      nameRulesEval, nameRuleEval, hr]
     by_cases hf : O.fnTag i e.id = true
     · simp [hf]
     · cases hp : prefixedName e <;> simp [hf]
-  · simp only [ht, hd, hr, Bool.and_false, List.isEmpty_cons, Bool.false_and, Bool.false_eq_true, if_false]
+  · simp only [ht, hdd, hr', List.isEmpty_cons, Bool.false_and, Bool.false_eq_true, if_false]
 
-/-- an unsatisfiable query never calls the name function (the strainer answers before looking at the tag) -/
-theorem dead_no_calls (O : Oracle) (q : Query) (hd : (mkStrainer q).dead = true) (e : Elem) :
-    matchElem O .repaired (mkStrainer q) e = (false, []) := by
-  have hdc : Variant.repaired.deadCheck = true := rfl
+/-- with the proposed `matches_nothing` check an unsatisfiable query never calls the name function -/
+theorem dead_no_calls (O : Oracle) (v : Variant) (hdc : v.deadCheck = true) (q : Query)
+    (hd : (mkStrainer q).dead = true) (e : Elem) :
+    matchElem O v (mkStrainer q) e = (false, []) := by
   unfold matchElem matchesTag
   by_cases ht : e.isTag = true <;> simp [ht, hd, hdc]
 
